@@ -40,8 +40,11 @@ class Observable:
                 f"from {old_value} to {new_value}"
             )
         )
-        for observer in self._observers:
-            observer(sender, old_value, new_value)
+        # Observers may unwatch (themselves or others) from inside their callback, so
+        # walk a copy, but never call one that has been removed in the meantime
+        for observer in list(self._observers):
+            if observer in self._observers:
+                observer(sender, old_value, new_value)
 
     @property
     def has_observers(self) -> bool:
